@@ -1012,7 +1012,7 @@ func c10r6(r *R) {
 		// and the peer would wait for an acknowledgement that never comes
 		for _, g := range guardStrings(settingsCall.Block()) {
 			gg := strings.TrimLeft(g, "!")
-			isTypeCase := strings.Contains(gg, "$1.(*golang.org/x/net/http2.") && strings.HasSuffix(gg, ")#1")
+			isTypeCase := isFrameTypeCase(gg)
 			if !(isTypeCase || strings.Contains(gg, "IsAck(") || strings.Contains(gg, "ForeachSetting(")) {
 				good = false
 				extraGuard = g
@@ -1058,11 +1058,11 @@ func escapesFromEntry(fn *ssa.Function, target ssa.Instruction) bool {
 func c10r9(r *R) {
 	pf := r.method(h2pkg, "relay", "processFrame")
 	allowed := []string{
-		"sendWindowUpdates(",  // DATA is forwarded once the credit for it went out
-		").HeadersEnded(",     // HEADERS / PUSH_PROMISE without END_HEADERS wait for their CONTINUATION
-		").decodeFull(",       // a header block that does not decode is a connection error
-		"SettingsFrame).IsAck(", // SETTINGS and its acknowledgement are different frames
-		").ForeachSetting(",   // a malformed SETTINGS frame is a connection error
+		"sendWindowUpdates(",               // DATA is forwarded once the credit for it went out
+		").HeadersEnded(",                  // HEADERS / PUSH_PROMISE without END_HEADERS wait for their CONTINUATION
+		").decodeFull(",                    // a header block that does not decode is a connection error
+		"SettingsFrame).IsAck(",            // SETTINGS and its acknowledgement are different frames
+		").ForeachSetting(",                // a malformed SETTINGS frame is a connection error
 		"ContinuationFrame).HeadersEnded(", // CONTINUATION completes the recorded block at END_HEADERS
 	}
 	n := 0
@@ -1079,7 +1079,7 @@ func c10r9(r *R) {
 		var extra []string
 		for _, g := range guardStrings(c.Block()) {
 			gg := strings.TrimLeft(g, "!")
-			if strings.Contains(gg, "$1.(*golang.org/x/net/http2.") && strings.HasSuffix(gg, ")#1") {
+			if isFrameTypeCase(gg) {
 				continue // the type switch
 			}
 			okg := false
@@ -1120,7 +1120,9 @@ func c10r10(r *R) {
 				if strings.HasSuffix(describe(x.Map), ".outputBuffers") {
 					n++
 					// a queue may only be installed for a stream that has none
-					lk := guardedBy(x.Block(), func(g string) bool { return strings.HasPrefix(g, "!") && strings.Contains(g, ".outputBuffers[") && strings.HasSuffix(g, "#1") })
+					lk := guardedBy(x.Block(), func(g string) bool {
+						return strings.HasPrefix(g, "!") && strings.Contains(g, ".outputBuffers[") && strings.HasSuffix(g, "#1")
+					})
 					r.check(lk, fname(fn)+"#install(outputBuffers)", x.Pos(), "a queue is installed only when the stream has none", "a stream's queue is overwritten although one may exist: its queued frames are dropped")
 				}
 			case *ssa.Lookup:
